@@ -279,7 +279,7 @@ theorem projFieldsK_acc (fs0 : List Field) (kp : Field → Bool) (hpw : fs0.Pair
 
 /-- **the retaining reader accepts every typed value within its skipper's depth budget**, and what it returns is a Rust
 value of the same wire type -/
-theorem keep_accepts_all (hd : dw.fieldsOk) : ∀ (f : Nat) (ty : STy) (w : TVal), hasTy dw f ty w = true → admitsB dpr w.need = true →
+theorem keep_accepts_all (hd : dw.fieldsOk) (hu : dw.variantsOk) : ∀ (f : Nat) (ty : STy) (w : TVal), hasTy dw f ty w = true → admitsB dpr w.need = true →
     ∃ w' B, Shape w w' ∧ Acc dw keep dpr ty w w' B := by
   intro f
   induction f with
@@ -447,7 +447,7 @@ theorem keep_accepts_all (hd : dw.fieldsOk) : ∀ (f : Nat) (ty : STy) (w : TVal
           simp only [hn] at h
           cases w <;> (try (simp at h; done))
           rename_i wfs
-          have hnr : (restrict dw keep).find n = some (.union vs) := by rw [restrict_find, hn]; rfl
+          have hnr : (restrict dw keep).find n = some (.union (vs.filter (keepVariant keep n))) := by rw [restrict_find, hn]; rfl
           cases wfs with
           | nil =>
             cases vs with
@@ -455,9 +455,12 @@ theorem keep_accepts_all (hd : dw.fieldsOk) : ∀ (f : Nat) (ty : STy) (w : TVal
             | cons hd' tl =>
               obtain ⟨i, t⟩ := hd'
               cases t <;> simp at h
+              have hvv : (STy.void == STy.void) = true := by decide
+              have hvs : ((i, STy.void) :: tl).filter (keepVariant keep n) = (i, STy.void) :: tl.filter (keepVariant keep n) := by
+                simp [List.filter_cons, keepVariant, hvv]
               refine ⟨.struct .nil, 2, ⟨id, rfl⟩, fun fK hf => ?_⟩
               obtain ⟨j, rfl⟩ : ∃ j, fK = j + 1 + 1 := ⟨fK - 2, by omega⟩
-              simp [projTyK, hnr, projUnionK]
+              simp [projTyK, hnr, hvs, projUnionK]
           | cons id v r =>
             cases r with
             | cons => simp at h
@@ -469,13 +472,34 @@ theorem keep_accepts_all (hd : dw.fieldsOk) : ∀ (f : Nat) (ty : STy) (w : TVal
                 obtain ⟨pid, ty⟩ := p
                 simp only [hfind, Bool.and_eq_true, decide_eq_true_eq, beq_iff_eq] at h
                 simp only [TVal.need, TFields.need] at ha
-                obtain ⟨pv, B, hs, hB⟩ := ih ty v h.2 (admitsB_mono dpr _ _ (by omega) ha)
-                refine ⟨.struct (.cons id pv .nil), B + 3, ⟨fun hw => ?_, rfl⟩, fun fK hf => ?_⟩
-                · simp only [TVal.wt, TFields.wt, Bool.and_eq_true, decide_eq_true_eq, and_true] at hw ⊢
-                  exact ⟨hw.1, hs.1 hw.2⟩
-                · obtain ⟨j, rfl⟩ : ∃ j, fK = j + 1 + 1 + 1 := ⟨fK - 3, by omega⟩
-                  simp only [projTyK, hnr, projUnionK, h.1.1, not_true_eq_false, if_false, hfind, Option.isSome_none, Bool.false_eq_true,
-                    restrict_ttype, h.1.2, bne_self_eq_false, hB (j + 1) (by omega)]
+                have hq := List.find?_some hfind
+                simp only [Bool.and_eq_true, beq_iff_eq, Bool.not_eq_true'] at hq
+                have hmem := List.mem_of_find?_eq_some hfind
+                have hpw := hu n vs hn
+                have hadm : admitsB dpr v.need = true := admitsB_mono dpr _ _ (by omega) ha
+                by_cases hkeep : keepVariant keep n (pid, ty) = true
+                · have hfr : (vs.filter (keepVariant keep n)).find? (fun x => x.1 == id && !(x.2 == .void)) = some (pid, ty) := by
+                    rw [List.find?_filter]
+                    apply find_unique_key (fun x : Int × STy => x.1) vs hpw (pid, ty) hmem
+                    · simp only [decide_eq_true_eq, Bool.and_eq_true, beq_iff_eq, Bool.not_eq_true']; exact ⟨hkeep, hq.1, hq.2⟩
+                    · intro y hy; simp only [decide_eq_true_eq, Bool.and_eq_true, beq_iff_eq] at hy; rw [hy.2.1, hq.1]
+                  obtain ⟨pv, B, hs, hB⟩ := ih ty v h.2 hadm
+                  refine ⟨.struct (.cons id pv .nil), B + 3, ⟨fun hw => ?_, rfl⟩, fun fK hf => ?_⟩
+                  · simp only [TVal.wt, TFields.wt, Bool.and_eq_true, decide_eq_true_eq, and_true] at hw ⊢
+                    exact ⟨hw.1, hs.1 hw.2⟩
+                  · obtain ⟨j, rfl⟩ : ∃ j, fK = j + 1 + 1 + 1 := ⟨fK - 3, by omega⟩
+                    simp only [projTyK, hnr, projUnionK, h.1.1, not_true_eq_false, if_false, hfr, Option.isSome_none, Bool.false_eq_true,
+                      restrict_ttype, h.1.2, bne_self_eq_false, hB (j + 1) (by omega)]
+                · have hfr : (vs.filter (keepVariant keep n)).find? (fun x => x.1 == id && !(x.2 == .void)) = none := by
+                    rw [List.find?_filter, List.find?_eq_none]
+                    intro x hx hpq
+                    simp only [decide_eq_true_eq, Bool.and_eq_true, beq_iff_eq] at hpq
+                    have : x = (pid, ty) := same_key (fun x : Int × STy => x.1) vs hpw x (pid, ty) hx hmem (by rw [hpq.2.1, hq.1])
+                    rw [this] at hpq; exact hkeep hpq.1
+                  refine ⟨.struct (.cons id v .nil), 3, ⟨fun hw => hw, rfl⟩, fun fK hf => ?_⟩
+                  obtain ⟨j, rfl⟩ : ∃ j, fK = j + 1 + 1 + 1 := ⟨fK - 3, by omega⟩
+                  simp only [projTyK, hnr, projUnionK, h.1.1, not_true_eq_false, if_false, hfr, Option.isSome_none, Bool.false_eq_true,
+                    hadm, if_true]
         | enum =>
           simp only [hn] at h
           cases w <;> (try (simp at h; done))
